@@ -438,7 +438,9 @@ func (nf *nfPass) bodyUnsuitable(fd *ast.FuncDecl, obj *types.Func) string {
 	ast.Inspect(fd.Body, func(n ast.Node) bool {
 		switch t := n.(type) {
 		case *ast.DeferStmt:
-			why = "has a defer"
+			if nf.deferredUnlock(fd) != t {
+				why = "has a defer"
+			}
 		case *ast.BranchStmt:
 			if t.Tok == token.GOTO {
 				why = "has a goto"
@@ -459,6 +461,50 @@ func (nf *nfPass) bodyUnsuitable(fd *ast.FuncDecl, obj *types.Func) string {
 		return why == ""
 	})
 	return why
+}
+
+// deferredUnlock: the one deferred call of a locked accessor - `defer x.mu.Unlock()` (or RUnlock) as a statement of
+// the body itself, the only defer of the function, with no return before it. Inlined, the call is made at
+// every exit after the results have been evaluated, which is when the deferred call runs; the two texts agree on
+// every execution that does not panic inside the helper.
+func (nf *nfPass) deferredUnlock(fd *ast.FuncDecl) *ast.DeferStmt {
+	var only *ast.DeferStmt
+	n := 0
+	ast.Inspect(fd.Body, func(x ast.Node) bool {
+		if d, ok := x.(*ast.DeferStmt); ok {
+			n++
+			only = d
+		}
+		return true
+	})
+	if n != 1 {
+		return nil
+	}
+	top := false
+	for _, st := range fd.Body.List {
+		if st == ast.Stmt(only) {
+			top = true
+			break
+		}
+		ret := false
+		ast.Inspect(st, func(x ast.Node) bool {
+			if _, ok := x.(*ast.ReturnStmt); ok {
+				ret = true
+			}
+			return !ret
+		})
+		if ret {
+			return nil
+		}
+	}
+	if !top || len(only.Call.Args) != 0 {
+		return nil
+	}
+	sel, ok := only.Call.Fun.(*ast.SelectorExpr)
+	if !ok || (sel.Sel.Name != "Unlock" && sel.Sel.Name != "RUnlock") {
+		return nil
+	}
+	return only
 }
 
 func (nf *nfPass) calleeOf(call *ast.CallExpr) *types.Func {
@@ -970,6 +1016,11 @@ func (nf *nfPass) inlinedBody(cand *nfCand, s nfSite, id int, rnames []string, q
 	}
 	var reps []rep
 	nret := 0
+	unlock := ""
+	if d := nf.deferredUnlock(cand.decl); d != nil {
+		unlock = nf.text(dfile, d.Call.Pos(), d.Call.End()) + "; "
+		reps = append(reps, rep{nf.off(d.Pos()), nf.off(d.End()), ""})
+	}
 	var walk func(n ast.Node) bool
 	walk = func(n ast.Node) bool {
 		switch t := n.(type) {
@@ -980,7 +1031,7 @@ func (nf *nfPass) inlinedBody(cand *nfCand, s nfSite, id int, rnames []string, q
 			var txt string
 			switch {
 			case len(rnames) == 0:
-				txt = "break " + label
+				txt = "{ " + unlock + "break " + label + " }"
 			case len(t.Results) == 0:
 				var vals []string
 				for i := range rnames {
@@ -991,13 +1042,13 @@ func (nf *nfPass) inlinedBody(cand *nfCand, s nfSite, id int, rnames []string, q
 						return false
 					}
 				}
-				txt = "{ " + strings.Join(rnames, ", ") + " = " + strings.Join(vals, ", ") + "; break " + label + " }"
+				txt = "{ " + strings.Join(rnames, ", ") + " = " + strings.Join(vals, ", ") + "; " + unlock + "break " + label + " }"
 			default:
 				var vals []string
 				for _, e := range t.Results {
 					vals = append(vals, nf.text(dfile, e.Pos(), e.End()))
 				}
-				txt = "{ " + strings.Join(rnames, ", ") + " = " + strings.Join(vals, ", ") + "; break " + label + " }"
+				txt = "{ " + strings.Join(rnames, ", ") + " = " + strings.Join(vals, ", ") + "; " + unlock + "break " + label + " }"
 			}
 			reps = append(reps, rep{nf.off(t.Pos()), nf.off(t.End()), txt})
 			return false
@@ -1048,15 +1099,19 @@ func (nf *nfPass) inlinedBody(cand *nfCand, s nfSite, id int, rnames []string, q
 	for _, rv := range resVars {
 		b.WriteString(rv + "\n")
 	}
+	atEnd := ""
+	if unlock != "" && len(rnames) == 0 {
+		atEnd = "\n" + strings.TrimSuffix(unlock, "; ")
+	}
 	if nret > 0 {
 		b.WriteString(label + ":\nswitch {\ndefault:\n")
 		b.Write(body)
 		// a body that falls off its end (no results) leaves the switch the same way
-		b.WriteString("\n}\n")
+		b.WriteString(atEnd + "\n}\n")
 	} else {
 		b.WriteString("{\n")
 		b.Write(body)
-		b.WriteString("\n}\n")
+		b.WriteString(atEnd + "\n}\n")
 	}
 	b.WriteString("}")
 	return b.String(), ""
